@@ -218,6 +218,9 @@ def gen(rnd: random.Random, opts: dict) -> Design:
     if rnd.random() < opts.get("p_triangle", 0.1):
         add_priority_triangle_pattern(D, rnd)
         keys = list(D.bodies)
+    if rnd.random() < opts.get("p_double_conflict", 0.1):
+        add_double_conflict_pattern(D, rnd)
+        keys = list(D.bodies)
     if rnd.random() < opts.get("p_deepchain", 0.15):
         add_deep_chain_pattern(D, rnd)
         keys = list(D.bodies)
@@ -437,6 +440,58 @@ def add_priority_triangle_pattern(D, rnd):
         extra = [k for k in D.bodies if k[0] == "t" and k not in keys]
         if extra:
             D.confl.append((hi, rnd.choice(extra), Priority.UNDEFINED))
+    return True
+
+
+def add_double_conflict_pattern(D, rnd):
+    """Forced layout class: two transactions that conflict TWICE - implicitly (both call one exclusive method) and by a prioritised add_conflict
+    (between the transactions, or between two further methods they call) whose declared priority disagrees with the definition order: the priority
+    of the second relation must survive although the pair already conflicts. A third transaction hangs on the component through a
+    schedule_before without any conflict (a component that is not a clique): it must never be blocked by the pair."""
+    first = D.nt + D.tnext
+    D.tnext += 3
+    keys = []
+    for k in range(3):
+        b = B("t", first + k)
+        b.pos = ((("body", "t", first + k), 0),)
+        D.nbits += 1
+        b.rdy = D.nbits - 1
+        D.bodies[b.key] = b
+        keys.append(b.key)
+        D.order.append(b)
+    m0 = D.nm
+    via_methods = rnd.random() < 0.5
+    D.nm += 3 if via_methods else 1
+    for idx in range(m0, D.nm):
+        D.meth.append(dict(has_in=False, nonex=False, validate=None, combiner=None, single_caller=False))
+        b = B("m", idx)
+        b.pos = ((("body", "m", idx), 0),)
+        D.nbits += 1
+        b.rdy = D.nbits - 1
+        D.bodies[b.key] = b
+        D.order.insert(rnd.randrange(len(D.order) + 1), b)
+    D.deford = {}
+
+    def pre(b):
+        D.deford[b.key] = len(D.deford)
+        for st in walk(b.stmts):
+            if st[0] == "body":
+                pre(st[1])
+    for b in D.order:
+        pre(b)
+    early, late, third = (D.bodies[k] for k in keys)  # `early` is defined before `late`
+    for t in (early, late):
+        t.stmts.append(("call", new_site(D, t, m0)))  # the shared exclusive method: implicit, unprioritised conflict
+    if via_methods:
+        early.stmts.append(("call", new_site(D, early, m0 + 1)))
+        late.stmts.append(("call", new_site(D, late, m0 + 2)))
+        hi, lo = ("m", m0 + 2), ("m", m0 + 1)
+    else:
+        hi, lo = late.key, early.key
+    # the later-defined side has the higher priority
+    D.confl.append((hi, lo, Priority.LEFT) if rnd.random() < 0.5 else (lo, hi, Priority.RIGHT))
+    # the third transaction is only ordered after the pair, it conflicts with nobody
+    D.sb.append((early.key, third.key, False))
     return True
 
 
@@ -1307,6 +1362,17 @@ def run_design(rec: Rec, D, A, rnd: random.Random, case: dict, sched: str = "eag
                                     rec.count("priority_high_side_blocked_by_third_party")
                                 rec.check("C08:low_priority_runs_only_if_high_priority_blocked_by_another", okp, case=case,
                                           detail=dict(det, high=str(th), low=str(tl)))
+            if sched == "eager":
+                for a, b2, rd in D.sb:
+                    for ta in A.tfor(a):
+                        for tb_ in A.tfor(b2):
+                            if ta == tb_ or tb_ in A.conf[ta] or not (elig_s.get(ta) and elig_s.get(tb_)):
+                                continue
+                            # an ordering without a conflict: both sides are fully enabled, so each one that stays idle needs a *conflicting* runner
+                            rec.count("schedule_before_pairs_both_enabled_cycles")
+                            for x in (ta, tb_):
+                                rec.check("C08:schedule_before_ordering_never_blocks_either_side", bool(run[x]) or any(run[y] for y in A.conf[x]), case=case,
+                                          detail=dict(det, ordered_pair=[str(ta), str(tb_)], idle=str(x)))
             for comp, internal in comps:
                 nrun = sum(1 for t in comp if run[t])
                 rec.check("C09:at_most_one_transaction_per_component_runs", nrun <= 1, case=case, detail=dict(det, component=[str(t) for t in comp]))
